@@ -444,3 +444,5 @@ _quick("C11", "C11_noaof", "a LOCK with the require-ack flag and persistence tim
 _quick("C01", "C01_prioritymutex", "the shard mutex (PriorityMutex.Lock / LowPriorityLock / HighPriorityLock and their unlocks) from a free mutex, with the other threads as nondeterminism: each of the next 5 atomic loads of the low-priority lane counter and of the high-priority flag returns an arbitrary value (solver variables); every lock function returns holding the inner mutex, every unlock gives it back", [], reach=["end", "locked"], native=False)
 
 _quick("C02", "C02_rolling", "a shared key of capacity 2 / 3 / 8 that is never free: filled, then 20 rounds of {the oldest holder releases, a new LockId takes the slot, the newest holder re-enters (Rcount 1) and releases that level, a stranger's unlock is refused}; after every round the key's holds are exactly the outstanding LockIds; at the end every holder's own UNLOCK is accepted", ["-witness", "1"])
+
+_quick("C03", "C11_ack", "(also under C11) one ack-required LOCK, 0..2 followers, every sequence of <=4 events from {leader flush, follower ack ok, follower ack negative, UNLOCK / LOCK same LockId, unlock-first, ack wait times out}: exactly one terminal reply for the request — also after a failed acknowledgement, when its own wait runs out 8 s later", ["-witness", "50"], reach=["end", "rolled-back"])
